@@ -121,7 +121,7 @@ def run(rep, tier, seed):
     # rule ids longer than a machine word / than 32 bits (a context may use any id length)
     for _ in range(100 if tier == 'quick' else 1000):
         n = rnd.randint(2, 5)
-        head = randbits(rnd, rnd.choice([24, 31, 32, 33, 40]))
+        head = randbits(rnd, rnd.choice([24, 31, 32, 33, 40, 56, 63, 64, 65, 72, 100]))
         ids = [head + x for x in prefix_free_ids(rnd, n, maxlen=9)]
         rnd.shuffle(ids)
         i = rnd.choice(ids)
